@@ -8,12 +8,17 @@ layer a spec class puts in front of the descriptor (`SetAttrMethod` →
 `prepare_attr_value` → `mutate_attr` → raw `setattr`; `DelAttrMethod` → raw
 `delattr` for a masked attribute).
 
+The host flags of the configuration (is the instance a spec-class instance, is
+the attribute managed, does it have a preparer) are what `type(instance)` says;
+section "class layouts" (`resolve`, `resolveMI`) computes them from the
+inheritance hierarchy the way `spec_class.bootstrap` does for one attribute.
+
 Generic over the value type `Val` (decidable equality). Everything the
 descriptor does not decide itself is a parameter (`World`):
 
 * `getter n`   — `fget(instance)` on underlying state `n` (a counter that the
                  `bump` operation advances): a value or a raised exception class
-* `preparer`   — the attribute's `_prepare_<attr>` method
+* `preparer`   — the attribute's `_prepare_<attr>` method: a value, or a raised exception class
 * `conforms`   — `check_type(value, attr_spec.type)`
 * `construct`  — `attr_spec.constructor()` (what `mutate_value` builds for `MISSING`)
 * `missing/empty/unchanged` — the three sentinels
@@ -29,7 +34,7 @@ open SpecVerif.Py
 
 structure World (Val : Type) where
   getter    : Nat → Except Err Val
-  preparer  : Val → Val
+  preparer  : Val → Except Err Val
   conforms  : Val → Bool
   construct : Val
   missing   : Val
@@ -88,24 +93,25 @@ def isSentinel (w : World Val) (v : Val) : Bool :=
   decide (v = w.missing) || decide (v = w.empty) || decide (v = w.unchanged)
 
 /-- `prepare_attr_value(attr_spec, instance, value)` for a scalar attribute:
-`mutate_value(old_value=MISSING, new_value=value, prepare=…, constructor=…)`.
-* `if new_value is UNCHANGED: return old_value`
+`if value is UNCHANGED: return UNCHANGED`, then
+`mutate_value(old_value=MISSING, new_value=value, prepare=…, constructor=…)`:
 * `if new_value is not MISSING and new_value is not EMPTY: value = new_value`
   `elif not replace: value = old_value; prepare = None`
-* `if prepare is not None: value = prepare(value)`
+* `if prepare is not None: value = prepare(value)`   (an exception of the preparer propagates)
 * `elif value is MISSING and constructor is not None: value = constructor()` -/
-def prepareAttrValue (w : World Val) (c : Cfg) (v : Val) : Val :=
-  if v = w.unchanged then w.missing
+def prepareAttrValue (w : World Val) (c : Cfg) (v : Val) : Except Err Val :=
+  if v = w.unchanged then .ok w.unchanged
   else
-    let value :=
-      if v ≠ w.missing ∧ v ≠ w.empty then (if c.hasPreparer then w.preparer v else v)
-      else w.missing
-    if value = w.missing then w.construct else value
+    match (if v ≠ w.missing ∧ v ≠ w.empty then (if c.hasPreparer then w.preparer v else .ok v)
+           else .ok w.missing) with
+    | .error e => .error e
+    | .ok value => .ok (if value = w.missing then w.construct else value)
 
 /-- Lines 253–277 of `spec_property.__get__`: no getter → AttributeError; the
 getter's exception (AttributeError re-raised as NestedAttributeError when
 `allow_attribute_error` is off); on a spec class with the attribute managed,
-`prepare_attr_value` then `check_type`, `ValueError` when non-conforming. -/
+`prepare_attr_value` (whose exception propagates as it is: it runs outside the
+`try` around the getter) then `check_type`, `ValueError` when non-conforming. -/
 def getterChecked (w : World Val) (c : Cfg) (n : Nat) : Out Val :=
   if c.hasGetter = false then .err .attributeError
   else
@@ -114,8 +120,9 @@ def getterChecked (w : World Val) (c : Cfg) (n : Nat) : Out Val :=
       if e = .attributeError ∧ c.allowAttrErr = false then .nested else .err e
     | .ok v =>
       if c.onSpecClass && c.managed then
-        let v' := prepareAttrValue w c v
-        if w.conforms v' then .val v' else .err .valueError
+        match prepareAttrValue w c v with
+        | .error e => .err e
+        | .ok v' => if w.conforms v' then .val v' else .err .valueError
       else .val v
 
 /-- `spec_property.__get__(instance, owner)` with `instance is not None`. -/
@@ -153,10 +160,12 @@ the raw `setattr`, which reaches `__set__`. -/
 def assign (w : World Val) (c : Cfg) (s : St Val) (v : Val) : St Val × Out Val :=
   if c.onSpecClass = false then pset c s v
   else
-    let v' := if c.managed then prepareAttrValue w c v else v
-    if isSentinel w v' then (s, .done)
-    else if c.managed && !w.conforms v' then (s, .err .typeError)
-    else pset c s v'
+    match (if c.managed then prepareAttrValue w c v else .ok v) with
+    | .error e => (s, .err e)          -- the preparer raised: nothing was touched yet
+    | .ok v' =>
+      if isSentinel w v' then (s, .done)
+      else if c.managed && !w.conforms v' then (s, .err .typeError)
+      else pset c s v'
 
 /-- One operation. `del obj.x` on a spec class: the attribute is masked by a
 data descriptor, so `DelAttrMethod` performs the raw `delattr` (→ `__delete__`)
@@ -201,10 +210,12 @@ inductive Delivery (Val : Type)
 def delivered (w : World Val) (c : Cfg) (v : Val) : Delivery Val :=
   if c.onSpecClass = false then .deliver v
   else
-    let v' := if c.managed then prepareAttrValue w c v else v
-    if isSentinel w v' then .noop
-    else if c.managed && !w.conforms v' then .reject .typeError
-    else .deliver v'
+    match (if c.managed then prepareAttrValue w c v else .ok v) with
+    | .error e => .reject e
+    | .ok v' =>
+      if isSentinel w v' then .noop
+      else if c.managed && !w.conforms v' then .reject .typeError
+      else .deliver v'
 
 namespace Spec
 
@@ -255,6 +266,100 @@ def run (w : World Val) (c : Cfg) : Ghost Val → List (Op Val) → Ghost Val ×
     (rest.1, r.2 :: rest.2)
 
 end Spec
+
+/-! ## Where the property lives: class layouts
+
+`spec_property.__get__` asks the *instance* for its spec-class metadata
+(`getattr(instance, "__spec_class__", None)` and `attr_name in metadata.attrs`),
+never the class that happens to declare the descriptor. The three host flags of
+`Cfg` (`onSpecClass`, `managed`, `hasPreparer`) are therefore a function of the
+whole inheritance chain of `type(instance)`. `resolve` mirrors, for the one
+attribute `x`, what `spec_class.bootstrap` / `SpecClassMetadata.for_class` /
+`build_attr_spec` compute while the chain is decorated base-first:
+
+* a class that is not decorated inherits `__spec_class__` from the nearest
+  decorated ancestor (plain attribute lookup);
+* a decorated class starts from a copy of the inherited `attrs`; `x` is (re)built
+  with `build_attr_spec(spec_cls, …)` when `x` is in the class's OWN
+  `__annotations__`, or when `x` is already managed and `x in spec_cls.__dict__`
+  (the class itself declares the property); otherwise the inherited `Attr` is kept;
+* `build_attr_spec` sets `attr_spec.prepare` iff `getattr(spec_cls, "_prepare_x")`
+  resolves, i.e. iff the class or any ancestor defines it. -/
+
+/-- One class of a linear inheritance chain, as far as attribute `x` goes. -/
+structure ClassDesc where
+  spec      : Bool     -- decorated with `@spec_class`
+  declares  : Bool     -- the `spec_property` object is in the class's own `__dict__["x"]`
+  annotates : Bool     -- `x` is in the class's own `__annotations__`
+  prep      : Bool     -- the class body defines `_prepare_x`
+  deriving DecidableEq, Repr
+
+/-- What `type(instance)` says about `x`. -/
+structure Resolved where
+  onSpecClass : Bool   -- `getattr(instance, "__spec_class__", None)` is truthy
+  managed     : Bool   -- `"x" in metadata.attrs`
+  hasPreparer : Bool   -- `metadata.attrs["x"].prepare is not None`
+  deriving DecidableEq, Repr
+
+def Resolved.none : Resolved := ⟨false, false, false⟩
+
+/-- Walk state: the metadata visible so far and whether `_prepare_x` resolves by
+attribute lookup on the class reached so far. -/
+def resolveStep (st : Resolved × Bool) (k : ClassDesc) : Resolved × Bool :=
+  let pv := st.2 || k.prep
+  if k.spec then
+    if k.annotates || (st.1.managed && k.declares) then (⟨true, true, pv⟩, pv)
+    else (⟨true, st.1.managed, st.1.hasPreparer⟩, pv)
+  else (st.1, pv)
+
+def resolveFrom (st : Resolved × Bool) (l : List ClassDesc) : Resolved × Bool :=
+  l.foldl resolveStep st
+
+/-- The chain is listed base first, `type(instance)` last. -/
+def resolve (l : List ClassDesc) : Resolved := (resolveFrom (Resolved.none, false) l).1
+
+/-- Multiple inheritance: two independent base chains (each base first) joined
+by a class `leaf(Ltop, Rtop)`. `a`, `b` are the walk states at the top of the
+left and of the right chain.
+* `leaf` decorated: `SpecClassMetadata.for_class` starts from the attrs of the
+  right base updated with those of the left base (`for parent in
+  reversed(spec_cls.__bases__)`), so `x` comes from the left chain if that
+  manages it, else from the right one;
+* `leaf` not decorated: `__spec_class__` is found by plain attribute lookup along
+  the MRO, i.e. the left chain's metadata if it has any, else the right chain's.
+`_prepare_x` resolves on `leaf` if it resolves on either base. -/
+def joinBases (a b : Resolved × Bool) (leaf : ClassDesc) : Resolved × Bool :=
+  let inherited : Resolved :=
+    if leaf.spec then
+      ⟨a.1.onSpecClass || b.1.onSpecClass, a.1.managed || b.1.managed,
+       if a.1.managed then a.1.hasPreparer else b.1.hasPreparer⟩
+    else if a.1.onSpecClass then a.1 else b.1
+  resolveStep (inherited, a.2 || b.2) leaf
+
+/-- `type(instance)` is the last class of `leaf :: tail`; `leaf` has the two bases `L.getLast`, `R.getLast`. -/
+def resolveMI (L R : List ClassDesc) (leaf : ClassDesc) (tail : List ClassDesc) : Resolved :=
+  (resolveFrom (joinBases (resolveFrom (Resolved.none, false) L) (resolveFrom (Resolved.none, false) R) leaf)
+    tail).1
+
+/-- The options given to the `spec_property` constructor / decorator chain. -/
+structure Opts where
+  overridable  : Bool
+  cache        : Bool
+  hasSetter    : Bool
+  hasDeleter   : Bool
+  hasGetter    : Bool
+  allowAttrErr : Bool
+  deriving DecidableEq, Repr
+
+/-- The configuration a descriptor with options `o` runs under on instances of
+the last class of chain `l`. Where in the chain the descriptor is declared
+enters only through `resolve` (the rebuild rule above). -/
+def cfgOf (o : Opts) (r : Resolved) : Cfg :=
+  { overridable := o.overridable, cache := o.cache, hasSetter := o.hasSetter,
+    hasDeleter := o.hasDeleter, onSpecClass := r.onSpecClass, managed := r.managed,
+    hasPreparer := r.hasPreparer, hasGetter := o.hasGetter, allowAttrErr := o.allowAttrErr }
+
+def layoutCfg (o : Opts) (l : List ClassDesc) : Cfg := cfgOf o (resolve l)
 
 /-! ## `classproperty` -/
 
